@@ -384,6 +384,38 @@ inductive Resp where
 /-- a service gets `*C`: it returns and may change the context -/
 abbrev Svc (α : Type) := Ctx α → Resp × Ctx α
 
+/-! ### Router as a `Service` (what `Router.Serve` returns and how it leaves `*C`) -/
+
+section RouterSvc
+variable {H α : Type} [DecidableEq α]
+
+/-- the context as the body of `Serve` leaves it when it ends in `notFound` or in the method
+    error: `c.ShiftRoute(len(hitRoute))` runs before the file/directory test -/
+def Router.shiftedCtx (r : Router H α) (c : Ctx α) : Ctx α :=
+  if c.rel = [] then c else
+  let f := trieFindSeg r.trie c.relRoute
+  if f.2 = [] then c else c.shift f.1.length
+
+/-- the body of `Router.Serve` (`Router.serve` in Go since the fix): run the handler the
+    decision names (`hs h` is what handler `h` does); `Miss` leaves the context shifted -/
+def Router.svcNoRestore (r : Router H α) (hs : H → Svc α) : Svc α := fun c =>
+  match r.serve c with
+  | .index h c' => hs h c'
+  | .dflt h c' => hs h c'
+  | .node h c' => hs h c'
+  | .miss => (.miss, r.shiftedCtx c)
+  | .badMethod => (.err 400, r.shiftedCtx c)
+  | .panicNoNode => (.err 500, c)
+
+/-- `Router.Serve(c)`: `pos := c.routePos; err := r.serve(c); if err == Miss { c.routePos = pos }` —
+    a router that misses hands the next service of a fall-through chain the route position
+    it was given -/
+def Router.svc (r : Router H α) (hs : H → Svc α) : Svc α := fun c =>
+  let o := r.svcNoRestore hs c
+  if o.1 = .miss then (.miss, { o.2 with pos := c.pos }) else o
+
+end RouterSvc
+
 structure Auth (α : Type) where
   serve : Svc α
   setup : Ctx α → Option Nat × Ctx α      -- `Setup(c) error`
